@@ -19,7 +19,7 @@ BASE_CONSTS = {
     "NL": 0, "KeepHist": False, "GenDepth": 0, "GenDir": ".", "KindBag": ("<-", "BagDefault"),
     "Tmax": 7, "Jump": 2, "MaxAuc": 1, "CreateUntil": 1, "StartOffsets": {1}, "Dur": 2, "Templates": {"B1"}, "Bidders": {"u2", "u3"},
     "Prices": {1, 2}, "Amts": {1, 3}, "CapSet": {5}, "MaxBids": 2, "MaxMods": 1, "MaxDon": 0,
-    "WithInvalid": False, "WithGenesis": False, "HookVariants": False, "Faults": {0},
+    "WithInvalid": False, "WithGenesis": False, "HookVariants": False, "Faults": {0}, "WithQueries": False,
 }
 
 
@@ -111,7 +111,9 @@ PLANS = {
     "C13": dict(mc=[MC_BATCH_Q], gen=GEN_GENERAL, tc=[TC_EXT_Q], tc_max=2500),
     "C15": dict(mc=[MC_GENESIS_Q], gen=[dict(g, consts=dict(g["consts"], WithGenesis=True, KindBag=("<-", "BagGenesis"),
                                                  Templates=set(g["consts"]["Templates"]) | {"Bx"})) for g in GEN_GENERAL]),
-    "C16": dict(mc=[MC_BATCH_Q, MC_FIXED_Q], gen=GEN_GENERAL),
+    "C16": dict(mc=[MC_BATCH_Q, MC_FIXED_Q], tc=[TC_EXT_Q], tc_max=2500,
+                gen=GEN_GENERAL + [dict(g, name=g["name"] + "Q", consts=dict(g["consts"], WithQueries=True, KindBag=("<-", "BagQueries")))
+                                   for g in scale(GEN_GENERAL, 0.6)]),
     "C18": dict(mc=[MC_INVALID1_Q, MC_INVALIDF_Q], gen=GEN_GENERAL),
     "C19": dict(mc=[MC_MULTI_Q], gen=GEN_GENERAL, tc=[TC_MULTI_Q], tc_max=2500),
 }
